@@ -1,2 +1,3 @@
+@dt.setter
 def spec(self, value):
     self.step_time = argtest.gt('dt', value, 0, float)
